@@ -138,6 +138,7 @@ pub fn audit(ex: &mut Exec) -> R<()> {
     }
     // scan all pointers of all tables (all versions, not only visible ones)
     let mut refs: BTreeMap<u64, (u64, u64, u64)> = BTreeMap::new();
+    let mut ref_tables: BTreeMap<u64, std::collections::BTreeSet<u64>> = BTreeMap::new();
     let mut nptr = 0u64;
     for table in v.iter_tables() {
         for it in table.iter() {
@@ -214,6 +215,7 @@ pub fn audit(ex: &mut Exec) -> R<()> {
                     }
                 }
             }
+            ref_tables.entry(fid).or_default().insert(table.id());
             let e = refs.entry(fid).or_insert((0, 0, 0));
             e.0 += 1;
             e.1 += size as u64;
@@ -221,6 +223,15 @@ pub fn audit(ex: &mut Exec) -> R<()> {
         }
     }
     ex.stats.add("blob.pointers_checked", nptr);
+    // a blob file referenced from several tables: a partial compaction must not rewrite it away from under
+    // the tables it does not touch
+    let shared: Vec<u64> = ref_tables.iter().filter(|(_, t)| t.len() >= 2).map(|(f, _)| *f).collect();
+    if !shared.is_empty() {
+        ex.stats.bump("blob.file_shared_by_tables");
+        if ex.merge_happened {
+            ex.stats.bump("blob.shared_file_after_merge");
+        }
+    }
     if ex.audits.gc_stats {
         let recorded = frag_map(v.gc_stats());
         let mut partial = false;
